@@ -1,3 +1,4 @@
 import AuthProofs.StrLemmas
 import AuthProofs.Splitter
 import AuthProofs.Trigger
+import AuthProofs.CodeEquiv
